@@ -9,9 +9,13 @@
      counter cnts["address"]) is ONE value threaded through the sub-frame (the Python
      shares the dicts by reference with the sub-Exec); orig_* backups are taken where the
      Python takes them and the callback puts back exactly the fields the Python puts back;
-   * a path split of the Python (insufficient-funds branch vs main branch) becomes a LIST
-     of results: the reported paths whose constraints hold under the valuation.  An
-     InfeasiblePath (balance_cond false) is the empty list;
+   * a path split of the Python (insufficient-funds branch vs main branch, JUMPI on a
+     symbolic word) becomes a LIST of results: the reported paths whose constraints hold
+     under the valuation, in the order in which the LIFO worklist explores them (the
+     insufficient-funds branch is pushed first, hence comes last).  An InfeasiblePath
+     (balance_cond false) is the empty list.  That exploring ALL paths over shared Python
+     objects yields, for the holding ones, exactly this state-passing result is the
+     subject of Model/CallHeapModel.v / Proofs/CallHeapProofs.v;
    * the first-order decision logic (Message fields per call scheme, fund, who sends
      value, insufficiency / balance conditions, debit / credit, effective return size,
      returndata visibility, address scheme, depth guard, which fields are restored,
@@ -64,15 +68,29 @@ Definition in_code (st : mstate) (a : Z) : bool :=
 Definition code_at (st : mstate) (a : Z) : list Z :=
   match alookup a (m_code st) with Some c => c | None => [] end.
 
-(* SEVM.transfer_value; None = InfeasiblePath *)
-Definition transfer_value (st : mstate) (caller to value : Z) : option mstate :=
-  if value =? 0 then Some st
+(* SEVM.transfer_value: the condition joining the path (None of [transfer_value] =
+   InfeasiblePath / a path whose constraints do not hold) and the balance updates *)
+Definition transfer_cond (st : mstate) (caller value : Z) : bool :=
+  (value =? 0) || balance_ok (balance_of st caller) value.
+Definition transfer_force (st : mstate) (caller to value : Z) : mstate :=
+  if value =? 0 then st
   else
     let caller_balance := balance_of st caller in
-    if negb (balance_ok caller_balance value) then None
-    else
-      let st1 := balance_update st caller (transfer_debit caller_balance value) in
-      Some (balance_update st1 to (transfer_credit (balance_of st1 to) value)).
+    let st1 := balance_update st caller (transfer_debit caller_balance value) in
+    balance_update st1 to (transfer_credit (balance_of st1 to) value).
+Definition transfer_value (st : mstate) (caller to value : Z) : option mstate :=
+  if transfer_cond st caller value then Some (transfer_force st caller to value) else None.
+
+(* send_callvalue of SEVM.call: CALL transfers; a scheme that moves nothing may still
+   require the balance (CALLCODE: path.append(balance_cond), InfeasiblePath when false) *)
+Definition send_cond (op : Z) (st : mstate) (caller fund : Z) : bool :=
+  if sends_value op then transfer_cond st caller fund
+  else if callvalue_checks_balance op fund then callvalue_balance_ok (balance_of st caller) fund
+  else true.
+Definition send_force (op : Z) (st : mstate) (caller to fund : Z) : mstate :=
+  if sends_value op then transfer_force st caller to fund else st.
+Definition send_callvalue (op : Z) (st : mstate) (caller to fund : Z) : option mstate :=
+  if send_cond op st caller fund then Some (send_force op st caller to fund) else None.
 
 Definition m_sstore (st : mstate) (a k v : Z) : mstate :=
   mkM (m_code st) (sstore_of (m_storage st) a k v) (m_transient st) (m_balance st) (m_cnt st).
@@ -103,6 +121,23 @@ Definition m_observation (c : fctx) (st : mstate) (k : Z) : list Z :=
   words [c_caller c; c_value c; c_this c; c_origin c; blen (c_code c);
          sload_of (m_storage st) (c_this c) k; sload_of (m_transient st) (c_this c) k;
          balance_of st (c_this c)].
+
+(* EXTCODESIZE / EXTCODECOPY of account [a] (concrete address): len(ex.code[alias]) or ZERO;
+   then the copy of 32 bytes from [off] over memory holding 0xff bytes -- Contract.slice for
+   an account that qualifies, else a run of zero bytes of the length the Python produces *)
+Definition m_ext_observation (st : mstate) (a off : Z) : list Z :=
+  let a' := a mod 2 ^ 160 in
+  let code := code_at st a' in
+  let size := if in_code st a' then blen code else 0 in
+  let mem0 := repeat 255 32 in
+  let mem :=
+    if extcodecopy_guard 32 then
+      let copied := if extcodecopy_use_code (in_code st a') (blen code)
+                    then code_window code off
+                    else repeat 0 (Z.to_nat (extcodecopy_empty_len off 32)) in
+      firstn 32 (copied ++ skipn (length copied) mem0)
+    else mem0 in
+  words [size] ++ mem.
 
 (* copy_returndata_to_memory into the zero-initialised [rsz]-byte return area *)
 Definition m_ret_area (rsz : Z) (data : list Z) : list Z :=
@@ -151,13 +186,11 @@ Definition m_call (kd : ckind) (to0 v0 rsz : Z) (c : fctx) (st : mstate) (ob : l
       let l := Some (false, true, []) in
       continue st (m_after_call ob 0 l rsz []) l
     else [] in
-  let send_callvalue (s : mstate) : option mstate :=
-    if sends_value op then transfer_value s pranked_caller to fund else Some s in
   let main :=
     if in_code st to then
       (* call_known *)
       let orig0 := st in
-      match send_callvalue st with
+      match send_callvalue op st pranked_caller to fund with
       | None => []
       | Some st1 =>
           let orig := if call_backup_before_transfer then orig0 else st1 in
@@ -173,13 +206,15 @@ Definition m_call (kd : ckind) (to0 v0 rsz : Z) (c : fctx) (st : mstate) (ob : l
       end
     else
       (* call_unknown, non-existing account: exit code 1, then the transfer *)
-      match send_callvalue st with
+      match send_callvalue op st pranked_caller to fund with
       | None => []
       | Some st1 =>
           let l := Some (false, false, []) in
           map (addlog [LFrame msg; LEnd (FOk [])]) (continue st1 (m_after_call ob 1 l rsz []) l)
       end in
-  fail_branch ++ main.
+  (* a value-bearing CALL in a static context raises WriteInStaticContext before anything else *)
+  if call_static_value_check op (c_static c) fund then [(FHalt, st, [LEnd FHalt])]
+  else main ++ fail_branch.
 
 (* SEVM.create *)
 Definition m_create (v : Z) (initcode : list Z) (c : fctx) (st : mstate) (ob : list Z)
@@ -216,7 +251,7 @@ Definition m_create (v : Z) (initcode : list Z) (c : fctx) (st : mstate) (ob : l
                     else continue (restore_create orig st3) (m_after_create ob 0 l) l))
               (sub_frame msg st2 run_init)
         end in
-    fail_branch ++ main.
+    main ++ fail_branch.
 
 Fixpoint mexec (s : script) (c : fctx) (st : mstate) (ob : list Z) (l : lastsub) {struct s} : list mres :=
   match s with
@@ -232,10 +267,12 @@ Fixpoint mexec (s : script) (c : fctx) (st : mstate) (ob : list Z) (l : lastsub)
       else map (addlog [LEvent (c_this c)]) (mexec rest c st ob l)
   | SObserve k rest => mexec rest c st (ob ++ m_observation c st k) l
   | SRetCopy off size rest =>
-      if retcopy_guard size then
-        if retcopy_oob off size (blen (returndata l)) then [(FHalt, st, [LEnd FHalt])]
-        else mexec rest c st (ob ++ firstn (Z.to_nat size) (skipn (Z.to_nat off) (returndata l))) l
+      if retcopy_guard size && retcopy_oob off size (blen (returndata l)) then [(FHalt, st, [LEnd FHalt])]
+      else if retcopy_copy_guard size then
+        mexec rest c st (ob ++ firstn (Z.to_nat size) (skipn (Z.to_nat off) (returndata l))) l
       else mexec rest c st ob l
+  | SIf cond s1 s2 => if cond =? 0 then mexec s2 c st ob l else mexec s1 c st ob l
+  | SExtCode a off rest => mexec rest c st (ob ++ m_ext_observation st a off) l
   | SCall kd to v rsz callee rest =>
       m_call kd to v rsz c st ob
         (fun c' st' => mexec callee c' st' [] None)
